@@ -2,8 +2,12 @@
      L <str> <name> <arr> <dict> <depth>     set the scanner limits for the following cases
      <id> S <hex>                            scan_objects: parse the bytes as a sequence of objects
      <id> F <p> <k> <value>*k                format (p = 1: OptPretty) -> hex of the text
+     <id> FO <mask> <k> <value>*k            format_opt (mask = OutputOptions bits) -> hex of the text
      <id> PS <hex> / <id> PN <hex>           parse_string / parse_name
      <id> FS <p> <hex> / <id> FN <hex>       fmt_string / fmt_name -> hex
+     <id> B <buf> <n1,n2,...> <hex>          read_atoms_buffered: a flat sequence of atoms read through the
+                                             buffered source (buf = 0: scannerBufSize) whose reader delivers
+                                             chunks of n1, n2, ... bytes (cyclically); printed like S
    Values use the prefix code of DESIGN.md Appendix B.  Observations of values are printed in
    canonical form (Obj.canon): reals as the bits of the float their token denotes.
    I/O and conversion only - no model logic. *)
@@ -116,6 +120,28 @@ let () =
     | id :: "F" :: p :: k :: rest ->
       let (vs, _) = parse_values (int_of_string k) rest in
       Printf.printf "%s %s\n" id (hex_of_bytes (Format.format (p = "1") vs))
+    | id :: "FO" :: mask :: k :: rest ->
+      let (vs, _) = parse_values (int_of_string k) rest in
+      Printf.printf "%s %s\n" id (hex_of_bytes (Format.format_opt (z_of_string mask) vs))
+    | [id; "B"; buf; sizes; h] ->
+      let data = Array.of_list (bytes_of_hex h) in
+      let sz = Stdlib.List.map (fun x -> max 1 (int_of_string x)) (Stdlib.String.split_on_char ',' sizes) in
+      let sz = Array.of_list sz in
+      let n = Array.length data in
+      let rec split i j acc =
+        if i >= n then Stdlib.List.rev acc
+        else
+          let k = min sz.(j mod Array.length sz) (n - i) in
+          split (i + k) (j + 1) (Array.to_list (Array.sub data i k) :: acc) in
+      let chunks = split 0 0 [] in
+      let b = int_of_string buf in
+      let bufn = if b = 0 then Readers.scanner_buf else nat_of_int b in
+      (match Readers.read_atoms_buffered !limits bufn chunks with
+       | Res.Ok vs ->
+         let b = Buffer.create 64 in
+         Stdlib.List.iter (fun v -> print_value b (Obj.canon v)) vs;
+         Printf.printf "%s ok 0%s\n" id (Buffer.contents b)
+       | Res.Err c -> Printf.printf "%s err:%s\n" id (cls_name c))
     | [id; "PS"; h] ->
       (match Strings.parse_string !limits (bytes_of_hex h) with
        | Res.Ok v -> Printf.printf "%s ok S%s\n" id (hex_of_bytes v)
